@@ -27,6 +27,8 @@ PUBLISH_PRELUDE = """#pragma once
 #define MAKE_PROPERTY(...) __make_property(__VA_ARGS__)
 #define MAKE_SEQ(...) __make_seq(__VA_ARGS__)
 #define MAKE_SEQ_PROPERTY(...) __make_seq_property(__VA_ARGS__)
+#define MAKE_MAP_PROPERTY(...) __make_map_property(__VA_ARGS__)
+#define MAKE_MAP_KEYS_SEQ(...) __make_map_keys_seq(__VA_ARGS__)
 #define EXTENSION(x) __extension x
 #else
 #define __begin_publish
@@ -35,6 +37,8 @@ PUBLISH_PRELUDE = """#pragma once
 #define MAKE_PROPERTY(...)
 #define MAKE_SEQ(...)
 #define MAKE_SEQ_PROPERTY(...)
+#define MAKE_MAP_PROPERTY(...)
+#define MAKE_MAP_KEYS_SEQ(...)
 #define EXTENSION(x)
 #endif
 """
